@@ -28,6 +28,7 @@ type rangeAggIterator struct {
 	// window state
 	window   map[GroupingKey]Series
 	interval time.Duration
+	offset   time.Duration
 	entry    SampledEntry
 	// buffered whether last entry is buffered
 	buffered bool
@@ -62,6 +63,11 @@ func RangeAggregation(
 		}
 	}
 
+	var offset time.Duration
+	if o := expr.Range.Offset; o != nil {
+		offset = o.Duration
+	}
+
 	return &rangeAggIterator{
 		iter: iter,
 
@@ -73,6 +79,7 @@ func RangeAggregation(
 
 		window:   map[GroupingKey]Series{},
 		interval: expr.Range.Range,
+		offset:   offset,
 	}, nil
 }
 
@@ -83,8 +90,8 @@ func (i *rangeAggIterator) Next(r *Step) bool {
 	}
 
 	// Fill the window.
-	windowStart := current.Add(-i.interval)
-	windowEnd := current
+	windowEnd := current.Add(-i.offset)
+	windowStart := windowEnd.Add(-i.interval)
 	i.fillWindow(windowStart, windowEnd)
 
 	// Aggregate the window.
